@@ -66,7 +66,8 @@ impl From<IncomplVarDecl> for VarDecl {
             VariableSpecificationKind::String(node) => {
                 InitialValueAssignmentKind::String(StringInitializer {
                     length: node.length,
-                    width: StringType::String,
+                    // The specification says if this is STRING or WSTRING
+                    width: node.width,
                     initial_value: None,
                     keyword_span: node.keyword_span,
                 })
